@@ -14,7 +14,7 @@ REAL = dict(MaxModules=200, DynStart=100, MaxHosts=5, MaxMsgTypes=10000, Traffic
 FAMILIES: Dict[str, Dict[str, Any]] = {
     "Routing": {
         "module": "MC_Routing",
-        "const": dict(REAL, TimingOn="TRUE", Modes='{"inline", "deferred"}', Conns='{"a", "b", "c"}',
+        "const": dict(REAL, TimingOn="TRUE", Modes='{"deferred"}', Conns='{"a", "b", "c"}',
                       MaxQ=1, MaxDeaths=1, MaxEnv=3, TickSteps="{}", MaxNow=0, AllowOpen="FALSE",
                       AllowFin="TRUE", AllowRst="FALSE", GenDepth=100, AnyW="TRUE"),
         "subst": {"Setup": "RSetup", "Alpha": "RAlpha"},
@@ -27,7 +27,7 @@ FAMILIES: Dict[str, Dict[str, Any]] = {
     },
     "Failures": {
         "module": "MC_Failures",
-        "const": dict(REAL, TimingOn="TRUE", Modes='{"inline", "deferred"}', Conns='{"a", "b", "c", "d"}',
+        "const": dict(REAL, TimingOn="TRUE", Modes='{"deferred"}', Conns='{"a", "b", "c", "d"}',
                       MaxQ=1, MaxDeaths=2, MaxEnv=2, TickSteps="{}", MaxNow=0, AllowOpen="FALSE",
                       AllowFin="TRUE", AllowRst="FALSE", GenDepth=100, AnyW="TRUE"),
         "subst": {"Setup": "FSetup", "Alpha": "FAlpha"},
@@ -53,7 +53,7 @@ FAMILIES: Dict[str, Dict[str, Any]] = {
         "module": "MC_Stats",
         "spec": "SSpec",
         "const": dict(MaxModules=200, DynStart=100, MaxHosts=5, MaxMsgTypes=4, TrafficChunk=2, MaxActive=256,
-                      TimingOn="TRUE", Modes='{"inline", "deferred"}', Conns='{"a", "m"}',
+                      TimingOn="TRUE", Modes='{"deferred"}', Conns='{"a", "m"}',
                       MaxQ=2, MaxDeaths=0, MaxEnv=4, TickSteps="{1, 2, 3}", MaxNow=7, AllowOpen="FALSE",
                       AllowFin="FALSE", AllowRst="FALSE", GenDepth=100, AnyW="FALSE"),
         "subst": {"Setup": "SSetup", "Alpha": "SAlpha"},
@@ -64,7 +64,7 @@ FAMILIES: Dict[str, Dict[str, Any]] = {
     },
     "Hostile": {
         "module": "MC_Hostile",
-        "const": dict(REAL, TimingOn="TRUE", Modes='{"inline", "deferred"}', Conns='{"a", "s", "h"}',
+        "const": dict(REAL, TimingOn="TRUE", Modes='{"deferred"}', Conns='{"a", "s", "h"}',
                       MaxQ=2, MaxDeaths=1, MaxEnv=4, TickSteps="{}", MaxNow=0, AllowOpen="FALSE",
                       AllowFin="TRUE", AllowRst="TRUE", GenDepth=100, AnyW="FALSE"),
         "subst": {"Setup": "HSetup", "Alpha": "HAlpha"},
@@ -76,7 +76,7 @@ FAMILIES: Dict[str, Dict[str, Any]] = {
     "Identity": {
         "module": "MC_Identity",
         "const": dict(MaxModules=6, DynStart=3, MaxHosts=5, MaxMsgTypes=10000, TrafficChunk=64, MaxActive=256,
-                      TimingOn="TRUE", Modes='{"inline", "deferred"}', Conns='{"a", "b", "c", "d"}',
+                      TimingOn="TRUE", Modes='{"deferred"}', Conns='{"a", "b", "c", "d"}',
                       MaxQ=2, MaxDeaths=0, MaxEnv=4, TickSteps="{}", MaxNow=0, AllowOpen="TRUE",
                       AllowFin="TRUE", AllowRst="TRUE", GenDepth=100, AnyW="FALSE"),
         "subst": {"Setup": "ISetup", "Alpha": "IAlpha"},
